@@ -3,12 +3,48 @@ import Litep2pVerif.Model.Mss.Message
 namespace Litep2pVerif.Mss
 open Litep2pVerif
 
+theorem uviEncodeAux_fuel : ∀ (f1 f2 n : Nat), n ≤ f1 → n ≤ f2 → uviEncodeAux f1 n = uviEncodeAux f2 n := by
+  intro f1
+  induction f1 with
+  | zero =>
+    intro f2 n h1 _
+    have : n = 0 := by omega
+    subst this
+    cases f2 <;> simp [uviEncodeAux]
+  | succ f1 ih =>
+    intro f2 n h1 h2
+    cases f2 with
+    | zero =>
+      have : n = 0 := by omega
+      subst this
+      simp [uviEncodeAux]
+    | succ f2 =>
+      simp only [uviEncodeAux]
+      by_cases h : n < 128
+      · simp [h]
+      · simp only [h, if_false]
+        rw [ih f2 (n / 128) (by omega) (by omega)]
+
 theorem uviEncode_lt (n : Nat) (h : n < 128) : uviEncode n = [n] := by
-  rw [uviEncode]; simp [h]
+  unfold uviEncode
+  cases n <;> simp [uviEncodeAux, h]
 
 theorem uviEncode_ge (n : Nat) (h : ¬ n < 128) :
     uviEncode n = (n % 128 + 128) :: uviEncode (n / 128) := by
-  rw [uviEncode]; simp [h]
+  unfold uviEncode
+  obtain ⟨m, rfl⟩ : ∃ m, n = m + 1 := ⟨n - 1, by omega⟩
+  simp only [uviEncodeAux, h, if_false]
+  rw [uviEncodeAux_fuel m ((m + 1) / 128) ((m + 1) / 128) (by omega) (Nat.le_refl _)]
+
+/-- Induction along the encoder's recursion. -/
+theorem uviEncode.induct {motive : Nat → Prop} (case1 : ∀ n, n < 128 → motive n)
+    (case2 : ∀ n, ¬ n < 128 → motive (n / 128) → motive n) : ∀ n, motive n := by
+  intro n
+  induction n using Nat.strongRecOn with
+  | _ n ih =>
+    by_cases h : n < 128
+    · exact case1 n h
+    · exact case2 n h (ih (n / 128) (by omega))
 
 theorem uviEncode_ne_nil (n : Nat) : uviEncode n ≠ [] := by
   by_cases h : n < 128
